@@ -392,3 +392,9 @@ cts_fixed!(t_ecb_cs2_b2_w2_l12, 64, EcbCs2, false, Cs::Cs2, U2, 2, U2, 12);
 cts_fixed!(t_ecb_cs2_b2_w2_l13, 64, EcbCs2, false, Cs::Cs2, U2, 2, U2, 13);
 cts_fixed!(t_ecb_cs3_b2_w2_l12, 64, EcbCs3, false, Cs::Cs3, U2, 2, U2, 12);
 cts_fixed!(t_ecb_cs3_b2_w2_l13, 64, EcbCs3, false, Cs::Cs3, U2, 2, U2, 13);
+// ---- quick: 12-byte blocks (> 8, not a multiple of 8)
+cts_fixed!(cbc_cs1_b12_w1_l12, 64, CbcCs1, true, Cs::Cs1, U12, 12, U1, 12);
+cts_fixed!(cbc_cs2_b12_w2_l25, 64, CbcCs2, true, Cs::Cs2, U12, 12, U2, 25);
+cts_fixed!(cbc_cs3_b12_w1_l29, 64, CbcCs3, true, Cs::Cs3, U12, 12, U1, 29);
+cts_fixed!(ecb_cs1_b12_w2_l29, 64, EcbCs1, false, Cs::Cs1, U12, 12, U2, 29);
+cts_fixed!(ecb_cs3_b12_w1_l24, 64, EcbCs3, false, Cs::Cs3, U12, 12, U1, 24);
